@@ -15,7 +15,9 @@ Streams
             (b) property oracle: computed from the *generator's* abstract project
                 (never from the model): expected relation, reach within the limits,
                 no dangling edge, "by" graphs are inverses, `graph: false`.
-  micro   : random entity tables -> `get_call_nodes` on stub objects vs the model.
+  micro   : random entity tables -> `get_call_nodes` on stub objects vs the model; every table is asked a
+            *sequence* of call lists (as the node constructors do, once per procedure) and the first one
+            again at the end: the answer must not depend on what was asked before.
 
 Translated table (translate/c13.py -> lean/FordModel/Generated/C13.lean): the guards of the
 interface-to-implementation links of `ProcNode.__init__` as a decision table over the Python
@@ -28,6 +30,12 @@ Generated interface forms: generic interfaces whose specific procedures are modu
 declared by interface bodies, in the three spellings of the procedure statement; separate module
 procedures implemented in a submodule, in the module itself or not at all, as `module subroutine`
 / `module function` or as `module procedure name`; calls through all of these interfaces.
+
+Generated hidden procedures (round 3): private module procedures are called from their module, its `module`
+implementations and its submodules; clusters of private helpers that call each other (chains, diamonds, self and
+mutual recursion) and the visible procedures; bindings to private procedures (`procedure :: b => h`).  With the
+default `display` none of them has a node: every caller must show what is reached through them (the oracle
+computes that by definition, per call), a binding to a hidden procedure is a node of its own.
 """
 from __future__ import annotations
 
@@ -358,11 +366,12 @@ def parse_model_data(field: str):
     return {int(x) for x in created.split(",")} if created else set(), ll(fwd), ll(inv)
 
 
-VARIANT = {"call_count": "asis"}   # decided at run time by `decide_variant`
+VARIANT = {"call_count": "asis", "bound_root": "asis"}   # decided at run time by `decide_variant`
 
 
 def model_request(tab: Table, order: list[int]) -> list[str]:
-    return ["c13.all", VARIANT["call_count"], ",".join(str(x) for x in order)] + [Table.encode(r) for r in tab.rows]
+    variant = VARIANT["call_count"] + ("+b" if VARIANT["bound_root"] == "fixed" else "")
+    return ["c13.all", variant, ",".join(str(x) for x in order)] + [Table.encode(r) for r in tab.rows]
 
 
 def decide_variant(ford, d: Path):
@@ -374,11 +383,20 @@ def decide_variant(ford, d: Path):
         _, gm, _ = build(ford, d, files, opts)
     _, edges = parse_dot(gm.callgraph.dot.source)
     VARIANT["call_count"] = "fixed" if edges else "asis"
-    return VARIANT["call_count"]
+    # Which bound procedures does graph_all make roots of the project-wide call graph?  Observed on the
+    # witness of C13-binding-to-hidden-not-root (binding b0 => private h0, h0 calls p1): `asis` draws b0 only
+    # as a callee, `fixed` (fixes/C13-binding-to-hidden-root.diff) also draws b0 -> p1.
+    files, opts = WITNESSES[BOUND_LEAF]
+    with common.quiet():
+        _, gm, _ = build(ford, d, files, opts)
+    _, edges = parse_dot(gm.callgraph.dot.source)
+    VARIANT["bound_root"] = "fixed" if any(t == "none~b0" for t, _, _, _ in edges) else "asis"
+    return dict(VARIANT)
 
 
-def compare(tab: Table, gm, obs: dict, resp: list[str]) -> list[str]:
-    """differences between the model's answer and the real graph objects"""
+def compare(tab: Table, node_obs, obs: dict, resp: list[str]) -> list[str]:
+    """differences between the model's answer and the real graph objects
+    (`node_obs` = `observe_nodes(gm, tab)`)"""
     diffs = []
     if resp[0] != "ok":
         return [f"model answered {resp[0]}"]
@@ -400,7 +418,7 @@ def compare(tab: Table, gm, obs: dict, resp: list[str]) -> list[str]:
                 diffs.append(f"{label}.{fld}: model {m[fld]} impl {ov}")
         if m["added"] != o["dot_nodes"]:
             diffs.append(f"{label}: DOT nodes {o['dot_nodes']} differ from model added {m['added']}")
-    created, fwd, inv = observe_nodes(gm, tab)
+    created, fwd, inv = node_obs
     mc, mf, mi = data.get("data2", (set(), set(), set()))
     if created != mc:
         diffs.append(f"node objects: model-only {sorted(mc - created, key=str)} impl-only {sorted(created - mc, key=str)}")
@@ -456,14 +474,18 @@ def gen_meta(rng, feat, p_false=0.06, allow_limits=True):
     return meta
 
 
-def gen_abs(rng: random.Random, big: bool) -> Abs:
+def gen_abs(rng: random.Random, big: bool, focus: str | None = None) -> Abs:
+    """`focus="hidden"`: a project about procedures that are not shown (default `display`, no limits, every
+    module has a cluster of private helpers): what the callers show must come through the helpers."""
     A = Abs()
     feat = A.features
+    if focus:
+        feat.add("focus-" + focus)
     shape = rng.choice(["chain", "diamond", "random", "random", "disconnected", "star"])
     feat.add("shape-" + shape)
     nm = rng.randint(1, 3) if not big else rng.randint(3, 6)
-    special = rng.random() < 0.3   # projects exercising graph:false / per-entity limits
-    limits = (not special) and rng.random() < 0.6
+    special = rng.random() < 0.3 and not focus   # projects exercising graph:false / per-entity limits
+    limits = (not special) and rng.random() < 0.6 and not focus
     if limits:
         A.opts["graph_maxdepth"] = rng.choice([0, 1, 1, 2, 3, INF_DEPTH])
         A.opts["graph_maxnodes"] = rng.choice([1, 2, 3, 4, 5, 6, 8, 12, INF_NODES])
@@ -476,7 +498,7 @@ def gen_abs(rng: random.Random, big: bool) -> Abs:
     if rng.random() < 0.25:
         A.opts["proc_internals"] = True
         feat.add("proc_internals")
-    if rng.random() < 0.25:
+    if rng.random() < 0.25 and focus != "hidden":
         A.opts["display"] = ["public", "protected", "private"]
         A.show_private = True
         feat.add("display-private")
@@ -502,7 +524,7 @@ def gen_abs(rng: random.Random, big: bool) -> Abs:
                  ext_same_block=rng.random() < 0.3, meta=gen_meta(rng, feat, pf, special))
         vis_mods = [u for u in uses if u.startswith("m")]
         # procedures first (names), bodies later
-        for _ in range(rng.randint(0, 4)):
+        for _ in range(rng.randint(2 if focus == "hidden" else 0, 4)):
             m["procs"].append(dict(name=f"p{pcount}", calls=[], uses=[], private=False, locals=[],
                                    internal=[], meta=gen_meta(rng, feat, pf, special),
                                    fn=rng.random() < 0.15, form="unit"))
@@ -536,6 +558,14 @@ def gen_abs(rng: random.Random, big: bool) -> Abs:
                 k = rng.randint(1, min(3, len(pubs)))
                 for p in rng.sample(pubs, k):
                     t["binds"].append((f"b{bcount}", p["name"]))
+                    # the usual object-oriented layout: the binding is public, the procedure behind it private
+                    if not p.get("bound") and rng.random() < 0.2:
+                        p["private"] = True
+                        feat.add("binding-to-private")
+                    if p["private"]:
+                        # (with the default `display` the binding is then a node of its own; like a type with
+                        # a generic binding the type is not extended: the inherited copy gets a run-dependent ident)
+                        has_generic.add(t["name"])
                     p["bound"] = True
                     bcount += 1
                 feat.add("simple-binding")
@@ -553,6 +583,15 @@ def gen_abs(rng: random.Random, big: bool) -> Abs:
             if not p.get("bound") and rng.random() < 0.25:
                 p["private"] = True
                 feat.add("private-proc")
+        # hidden helpers: a cluster of private procedures that call each other (chains, diamonds, cycles)
+        # and the visible procedures; with the default `display` they have no node of their own and every
+        # caller must show what is reached *through* them
+        if rng.random() < 0.3 or focus == "hidden":
+            for _ in range(rng.randint(2, 4)):
+                m["procs"].append(dict(name=f"p{pcount}", calls=[], uses=[], private=True, locals=[], internal=[],
+                                       meta={}, fn=False, form="unit", helper=True))
+                pcount += 1
+            feat.add("hidden-helper-cluster")
         free = [p for p in m["procs"] if not p["private"]]
         # separate module procedures (interface bodies with the MODULE prefix) ...
         if rng.random() < 0.35:
@@ -624,10 +663,12 @@ def gen_abs(rng: random.Random, big: bool) -> Abs:
     # call bodies
     modmap = {m["name"]: m for m in A.mods}
 
-    def callable_from(unit_mods, own, in_sub=False):
+    def callable_from(unit_mods, own, in_sub=False, host=None):
         out = []
         for mn in unit_mods:
-            out += [("proc", p["name"]) for p in modmap[mn]["procs"] if not p["private"] and not p["fn"]]
+            # (the private procedures of a module can be called from the module itself and its submodules)
+            out += [("proc", p["name"]) for p in modmap[mn]["procs"]
+                    if (not p["private"] or mn == host) and not p["fn"]]
             # generic interfaces, separate module procedures and external procedures are called through
             # their interface (inside a submodule the name of a module procedure may denote the local
             # implementation instead: not generated)
@@ -646,14 +687,24 @@ def gen_abs(rng: random.Random, big: bool) -> Abs:
                 out += [("tb", t["name"], g) for g, _ in t["generics"]]
         return out
 
-    def fill(p, unit_mods, own, allow_use=True, in_sub=False):
-        cands = callable_from(unit_mods, own, in_sub)
+    def fill(p, unit_mods, own, allow_use=True, in_sub=False, host=None):
+        cands = callable_from(unit_mods, own, in_sub, host)
         tbs = tb_targets(unit_mods)
         n = rng.choice([0, 1, 1, 2, 3])
+        helpers = [("proc", q["name"]) for q in modmap[host]["procs"] if q.get("helper")] if host else []
+        if helpers and p.get("helper"):
+            n = rng.choice([1, 2, 2, 3])
         used_b = set()
         for _ in range(n):
             r = rng.random()
-            if r < 0.12:
+            if helpers and rng.random() < (0.5 if p.get("helper") else 0.3):
+                # into / inside the cluster of hidden helpers (itself included: recursion)
+                c = rng.choice(helpers)
+                p["calls"].append(c)
+                feat.add("call-to-private")
+                if c[1] == p["name"]:
+                    feat.add("recursion")
+            elif r < 0.12:
                 p["calls"].append(("ext", rng.choice(["xp0", "xp1"])))
                 feat.add("external-call")
             elif r < 0.3 and tbs:
@@ -670,6 +721,8 @@ def gen_abs(rng: random.Random, big: bool) -> Abs:
                 p["calls"].append(c)
                 if c[1] == p["name"]:
                     feat.add("recursion")
+                if c[0] == "proc" and host and any(q["name"] == c[1] and q["private"] for q in modmap[host]["procs"]):
+                    feat.add("call-to-private")
                 if c[0] == "iface":
                     feat.add("call-to-interface")
         if allow_use and rng.random() < 0.1:
@@ -681,16 +734,37 @@ def gen_abs(rng: random.Random, big: bool) -> Abs:
     for m in A.mods:
         mods_here = [m["name"]] + [u for u in m["uses"] if u.startswith("m")]
         for p in m["procs"]:
-            fill(p, mods_here, [])
+            fill(p, mods_here, [], host=m["name"])
         for p in m["mpimpls"]:
-            fill(p, mods_here, [], allow_use=False)
+            fill(p, mods_here, [], allow_use=False, host=m["name"])
     for s in A.subs:
         for p in s["impls"]:
-            fill(p, [s["mod"]], [], allow_use=False, in_sub=True)
+            fill(p, [s["mod"]], [], allow_use=False, in_sub=True, host=s["mod"])
     for g in A.progs:
         fill(g, g["uses"], g["procs"], allow_use=False)
         for p in g["procs"]:
             fill(p, g["uses"], g["procs"], allow_use=False)
+    # shape of the hidden part of the call relation (histogram only)
+    if not A.show_private:
+        hid = {p["name"]: {c[1] for c in p["calls"] if c[0] == "proc"}
+               for m in A.mods for p in m["procs"] if p["private"]}
+        hid = {h: {c for c in cs if c in hid} for h, cs in hid.items()}
+
+        def hreach(h):
+            seen, todo = set(), [h]
+            while todo:
+                for c in hid[todo.pop()]:
+                    if c not in seen:
+                        seen.add(c)
+                        todo.append(c)
+            return seen
+        reach = {h: hreach(h) for h in hid}
+        if any(cs - {h} for h, cs in hid.items()):
+            feat.add("hidden-calls-hidden")
+        if any(h in reach[h] for h in hid):
+            feat.add("hidden-recursion")
+        if any(g != h and h in reach[g] for h in hid for g in reach[h]):
+            feat.add("hidden-mutual-recursion")
     # files
     units = [m["name"] for m in A.mods] + [s["name"] for s in A.subs] + [g["name"] for g in A.progs]
     rng.shuffle(units)
@@ -910,9 +984,9 @@ class Spec:
                 return [f"interface~{target[1]}"]
             if target[0] == "tb":
                 kind = binds[target[2]]
-                if kind[0] == "simple":
-                    return resolve(("proc", kind[1]), None, seen)
-                return [f"none~{target[2]}"]
+                if kind[0] == "simple" and self.visible[procs[kind[1]][1]]:
+                    return [procs[kind[1]][1]]     # one visible procedure under one label: shown as that procedure
+                return [f"none~{target[2]}"]       # generic binding, or a binding to a procedure that is not shown
             p, ident = procs[target[1]]
             if self.visible[ident]:
                 return [ident]
@@ -936,6 +1010,20 @@ class Spec:
             self.calls[ident] = [(x, "s") for x in callees(p)]
         for g in A.progs:
             self.calls[f"program~{g['name']}"] = [(x, "s") for x in callees(g)]
+        self.kept_bindings = []
+        for b, k in binds.items():
+            if k[0] == "simple" and not self.visible[procs[k[1]][1]]:
+                # binding to a procedure that is not shown: the binding is the node, and it calls what is
+                # reached through the hidden procedure
+                bi = f"none~{b}"
+                self.kind[bi] = "b"
+                self.limits[bi] = (d0, n0)
+                out = []
+                for x in resolve(("proc", k[1]), None, set()):
+                    if x not in out:
+                        out.append(x)
+                self.calls[bi] = [(x, "d") for x in out]
+                self.kept_bindings.append(bi)
         for b, k in binds.items():
             if k[0] == "generic":
                 gi = f"none~{b}"
@@ -1068,7 +1156,7 @@ CLASSES_OF_KIND = {"m": ["uses", "usedby"], "s": ["uses", "usedby"], "t": ["inhe
 INVERSE_PAIRS = [("uses", "usedby"), ("inherits", "inheritedby"), ("calls", "calledby"), ("efferent", "afferent")]
 
 
-def project_roots(S: Spec, cls: str, drop_false=True):
+def project_roots(S: Spec, cls: str, drop_false=True, drop_kept_bindings=False):
     ok = lambda i: not (drop_false and i in S.graph_false)  # noqa
     ks = S.kind
     if cls == "module":
@@ -1083,6 +1171,8 @@ def project_roots(S: Spec, cls: str, drop_false=True):
     for t in (t for m in S.A.mods for t in m["types"]):
         if ok(f"type~{t['name']}"):
             r += [f"none~{g}" for g, _ in t["generics"]]
+            if not drop_kept_bindings:
+                r += [f"none~{b}" for b, _ in t["binds"] if f"none~{b}" in S.kept_bindings]
     r += [i for i, k in ks.items() if k == "g" and ok(i) and own_graph_nontrivial(S, i, "calls")]
     return r
 
@@ -1117,8 +1207,12 @@ def norm_edges(S: Spec, cls: str, edges):
     return sorted(out)
 
 
+GF_DEP = "C13-graph-false-dependency"
+BOUND_LEAF = "C13-binding-to-hidden-not-root"
+
+
 def judge_project(S: Spec, cls: str, nodes: set, edges):
-    """project-wide graph of class `cls` against the relation of `S` -> (holds, finding id | None, text)"""
+    """project-wide graph of class `cls` against the relation of `S` -> (holds, finding id(s) | None, text)"""
     succ = S.succ(cls)
     gf = S.graph_false
     roots = project_roots(S, cls)
@@ -1130,10 +1224,20 @@ def judge_project(S: Spec, cls: str, nodes: set, edges):
     if got == (exp[0], exp_edges):
         return True, None, ""
     fid = None
-    asis = expected_graph(succ, roots, 1, maxn, False)
-    if gf and got == (asis[0], norm_edges(S, cls, asis[1])):
-        fid = "C13-graph-false-dependency"
-    elif cls == "call":
+    # the graph the listed defects produce: `graph: false` entities kept as non-root dependencies, and / or
+    # bindings to hidden procedures drawn only as callees (not as roots with their own edges)
+    roots_nb = project_roots(S, cls, drop_kept_bindings=True) if cls == "call" else roots
+    for keep_gf, drop_b in ((True, False), (False, True), (True, True)):
+        if (keep_gf and not gf) or (drop_b and len(roots_nb) == len(roots)):
+            continue
+        rs = roots_nb if drop_b else roots
+        mx = max([1] + [S.limits[r][1] for r in rs if r in S.limits])
+        asis = expected_graph(succ if keep_gf else clean, rs, 1, mx, False)
+        if got == (asis[0], norm_edges(S, cls, asis[1])):
+            fids = tuple(f for f, on in ((GF_DEP, keep_gf), (BOUND_LEAF, drop_b)) if on)
+            fid = fids[0] if len(fids) == 1 else fids
+            break
+    if fid is None and cls == "call":
         hop = [c for r in roots for c, _ in succ(r)]
         if got == (set(roots), []) and len(set(hop)) + len(set(roots)) > maxn >= len(set(hop) | set(roots)):
             fid = "C13-callgraph-counts-roots-twice"
@@ -1208,7 +1312,7 @@ def oracle(A: Abs, S: Spec, obs: dict):
             if ok2:
                 fid = MODPROC_IMPL
             elif fid2 is not None:
-                fid = (MODPROC_IMPL, fid2)
+                fid = (MODPROC_IMPL,) + (fid2 if isinstance(fid2, tuple) else (fid2,))
         fails.append((label, why, fid))
     # "by" graphs are the inverses of their counterparts (first hop, both drawn, none refused)
     for fcls, bcls in INVERSE_PAIRS:
@@ -1272,6 +1376,7 @@ def micro_callnodes(ford, drv, rng, n, rep):
                      uses=[], anc=None, comps=[], calls=[], bindings=[], modprocs=[], impl=None, deps=[],
                      boundprocs=[], internals=[], maxDepth=0, maxNodes=1)
             if not isinstance(o, str):
+                o.name = f"n{rng.randrange(3)}"     # names collide: entities are told apart by identity only
                 if rng.random() < 0.85:
                     o.visible = rng.random() < 0.55
                     r["visible"] = r["visibleF"] = o.visible
@@ -1285,18 +1390,25 @@ def micro_callnodes(ford, drv, rng, n, rep):
                     r["calls"] = [rng.randrange(k) for _ in range(rng.choice([0, 1, 2, 3]))]
                     o.calls = [objs[j] for j in r["calls"]]
             rows.append(r)
-        calls = [rng.randrange(k) for _ in range(rng.randint(1, 3))]
-        got = G.get_call_nodes([objs[j] for j in calls])
-        exps.append(sorted(i for i, o in enumerate(objs) if any(o is g for g in got)))
-        reqs.append(["c13.callnodes", ",".join(map(str, calls))] + [Table.encode(r) for r in rows])
-        cases.append((calls, rows))
+        # the node constructors ask once per procedure, over the same objects: a sequence of call lists is
+        # put to the real function one after the other (the model answers each one on its own: the nodes that
+        # stand in for a call list do not depend on what was asked before), and the first is asked again last
+        seq = [[rng.randrange(k) for _ in range(rng.randint(1, 3))] for _ in range(rng.choice([1, 2, 3, 4]))]
+        seq.append(list(seq[0]))
+        enc = [Table.encode(r) for r in rows]
+        for pos, calls in enumerate(seq):
+            got = G.get_call_nodes([objs[j] for j in calls])
+            exps.append(sorted(i for i, o in enumerate(objs) if any(o is g for g in got)))
+            reqs.append(["c13.callnodes", ",".join(map(str, calls))] + enc)
+            cases.append((calls, enc, seq[:pos]))
     bad = 0
-    for (calls, rows), e, m in zip(cases, exps, drv.batch(reqs)):
+    for (calls, enc, before), e, m in zip(cases, exps, drv.batch(reqs)):
         mm = sorted(int(x) for x in m[1].split(",")) if len(m) > 1 and m[1] else []
         if m[0] != "ok" or mm != e:
             bad += 1
-            rep.tie_broken(f"correspondence micro/get_call_nodes: model {m} vs implementation {e}",
-                           {"stream": "micro", "calls": calls, "table": [Table.encode(r) for r in rows],
+            rep.tie_broken(f"correspondence micro/get_call_nodes: model {m} vs implementation {e}"
+                           + (f" (asked after {before} over the same objects)" if before else ""),
+                           {"stream": "micro", "calls": calls, "asked_before": before, "table": enc,
                             "impl": e, "model": m})
     return len(reqs), bad
 
@@ -1317,6 +1429,12 @@ WITNESSES = {
         {"a.f90": "module m0\n  implicit none\n  interface\n    module subroutine sp0()\n    end subroutine sp0\n"
                   "  end interface\nend module m0\n\nsubmodule (m0) s0\ncontains\n  module procedure sp0\n"
                   "  end procedure sp0\nend submodule s0\n"}, {"display": ["public", "protected", "private"]}),
+    "C13-binding-to-hidden-not-root": (
+        {"a.f90": "module m0\n  implicit none\n  private :: h0\n  type :: t0\n  contains\n"
+                  "    procedure, nopass :: b0 => h0\n  end type t0\ncontains\n"
+                  "  subroutine p0()\n    type(t0) :: v0\n    call v0%b0()\n  end subroutine p0\n"
+                  "  subroutine h0()\n    call p1()\n  end subroutine h0\n"
+                  "  subroutine p1()\n  end subroutine p1\nend module m0\n"}, {}),
 }
 
 
@@ -1336,6 +1454,10 @@ def witness_abs(fid: str) -> Abs:
                        impls=[dict(pr("sp0", []), private=True, fn=False, form="proc")])]
         A.opts = {"display": ["public", "protected", "private"]}
         A.show_private = True
+    elif fid == "C13-binding-to-hidden-not-root":
+        p0 = dict(pr("p0", []), calls=[("tb", "v0", "b0")], locals=[("v0", "t0")])
+        A.mods = [dict(mk("m0", procs=[p0, dict(pr("h0", ["p1"]), private=True, bound=True), pr("p1", [])]),
+                       types=[dict(name="t0", extends=None, comps=[], binds=[("b0", "h0")], generics=[], meta={})])]
     else:
         A.mods = [mk("m0", procs=[pr("p0", ["p1"]), pr("p1", ["p0"])])]
         A.opts = {"graph_maxnodes": 3}
@@ -1350,7 +1472,9 @@ def witness_abs(fid: str) -> Abs:
 
 
 def run_case(ford, drv, d: Path, A: Abs | None, files: dict, opts: dict):
-    """-> dict(corr=[...], fails=[(label, why, fid)], ngraphs, stats)"""
+    """-> dict(corr=[...], fails=[(label, why, fid)], ngraphs, stats).  With `drv=None` the model is not asked
+    yet: the result carries `request` and `settle(resp)` (fills `corr`), so that the caller can put the requests
+    of many cases to one run of the driver."""
     import shutil
 
     shutil.rmtree(d, ignore_errors=True)
@@ -1367,8 +1491,16 @@ def run_case(ford, drv, d: Path, A: Abs | None, files: dict, opts: dict):
     obs = observe_all(gm, tab)
     tab.close()
     out["ngraphs"] = len(obs)
-    resp = drv.call(*model_request(tab, oids))
-    out["corr"] = compare(tab, gm, obs, resp)
+    node_obs = observe_nodes(gm, tab)
+    out["request"] = model_request(tab, oids)
+
+    def settle(resp, out=out, tab=tab, node_obs=node_obs, obs=obs):
+        out["corr"] = compare(tab, node_obs, obs, resp)
+        out.pop("settle", None)
+    if drv is not None:
+        settle(drv.call(*out["request"]))
+    else:
+        out["settle"] = settle
     st = out["stats"]
     for label, o in obs.items():
         cls = label.rsplit(":", 1)[1]
@@ -1437,43 +1569,54 @@ def run(tier: str, seed: int, replay: str | None = None) -> int:
             A = witness_abs(fid)
             cases.append((A, render(A), A.opts, "witness"))
         for k in range(n_proj):
-            A = gen_abs(rng, big=(k % 3 == 0))
+            A = gen_abs(rng, big=(k % 3 == 0), focus="hidden" if k % 5 == 4 else None)
             cases.append((A, render(A), A.opts, "proj"))
     try:
         ev_micro, bad_micro = micro_callnodes(ford, drv, rng, n_micro, rep)
         with common.scratch_dir() as d:
             graphviz.Digraph.pipe = fake_pipe
-            rep.coverage["variant_decided"] = {"CallGraph node counting": decide_variant(ford, d / "v")}
-            for k, (A, files, opts, stream) in enumerate(cases):
-                graphviz.Digraph.pipe = real_pipe if k % 8 == 0 else fake_pipe
-                res = run_case(ford, drv, d / "p", A, files, opts)
-                case = {"stream": stream, "index": k, "files": files, "opts": opts,
-                        "abstract": dict(vars(A), features=sorted(A.features)) if A else None}
-                if res["error"]:
-                    n_err += 1
-                    rep.failing_input(dict(case, why="the real code raised while building the graphs: " + res["error"]), None)
-                    continue
-                n_graphs += res["ngraphs"]
-                for f in (A.features if A else ()):
-                    feats[f] = feats.get(f, 0) + 1
-                for s, v in res["stats"].items():
-                    stats[s] = stats.get(s, 0) + v
-                if res["stats"].get("with-edges"):
-                    distinct.add(common.digest([files, opts]))
-                if len(samples) < 2 and stream == "proj" and res["stats"].get("nodes>=4"):
-                    samples.append({"files": files, "opts": opts, "graphs": res["sample"]})
-                if res["corr"]:
-                    n_corr_bad += 1
-                    rep.tie_broken(f"correspondence proj: model and implementation differ on case {k}: {res['corr'][0][:300]}",
-                                   dict(case, differences=res["corr"][:5]))
-                for label, why, fid in res["fails"]:
-                    n_oracle += 1
-                    fids = list(fid) if isinstance(fid, tuple) else [fid]
-                    unlisted = [f for f in fids if f is not None and f not in rep.known]
-                    if len(fids) > 1 and unlisted:
-                        fids = unlisted[:1]      # a combination is excused only if every part is listed
-                    for f in fids:
-                        rep.failing_input(dict(case, graph=label, why=why, classes=[x for x in fids if x]), f)
+            variants = decide_variant(ford, d / "v")
+            rep.coverage["variant_decided"] = {"CallGraph node counting": variants["call_count"],
+                                               "bound procedures as call-graph roots": variants["bound_root"]}
+            CHUNK = 64      # the model answers the requests of this many projects in one run of the driver
+            for k0 in range(0, len(cases), CHUNK):
+                results = []
+                for k in range(k0, min(k0 + CHUNK, len(cases))):
+                    A, files, opts, stream = cases[k]
+                    graphviz.Digraph.pipe = real_pipe if k % 8 == 0 else fake_pipe
+                    results.append((k, run_case(ford, None, d / "p", A, files, opts)))
+                pending = [res for _, res in results if "settle" in res]
+                for res, resp in zip(pending, drv.batch([res["request"] for res in pending])):
+                    res["settle"](resp)
+                for k, res in results:
+                    A, files, opts, stream = cases[k]
+                    case = {"stream": stream, "index": k, "files": files, "opts": opts,
+                            "abstract": dict(vars(A), features=sorted(A.features)) if A else None}
+                    if res["error"]:
+                        n_err += 1
+                        rep.failing_input(dict(case, why="the real code raised while building the graphs: " + res["error"]), None)
+                        continue
+                    n_graphs += res["ngraphs"]
+                    for f in (A.features if A else ()):
+                        feats[f] = feats.get(f, 0) + 1
+                    for s, v in res["stats"].items():
+                        stats[s] = stats.get(s, 0) + v
+                    if res["stats"].get("with-edges"):
+                        distinct.add(common.digest([files, opts]))
+                    if len(samples) < 2 and stream == "proj" and res["stats"].get("nodes>=4"):
+                        samples.append({"files": files, "opts": opts, "graphs": res["sample"]})
+                    if res["corr"]:
+                        n_corr_bad += 1
+                        rep.tie_broken(f"correspondence proj: model and implementation differ on case {k}: {res['corr'][0][:300]}",
+                                       dict(case, differences=res["corr"][:5]))
+                    for label, why, fid in res["fails"]:
+                        n_oracle += 1
+                        fids = list(fid) if isinstance(fid, tuple) else [fid]
+                        unlisted = [f for f in fids if f is not None and f not in rep.known]
+                        if len(fids) > 1 and unlisted:
+                            fids = unlisted[:1]      # a combination is excused only if every part is listed
+                        for f in fids:
+                            rep.failing_input(dict(case, graph=label, why=why, classes=[x for x in fids if x]), f)
     finally:
         graphviz.Digraph.pipe = real_pipe
     rep.coverage.update(
